@@ -71,13 +71,49 @@ def _match_d44(stream, line, impl, model):
     return len(t.members) == 1 and b"" in t.members[0][1]
 
 
+def toon_symptom(impl):
+    """what went wrong with a TOON round trip: the decoder's message, 'enc', or 'differs' (decoded, but to another value)"""
+    if impl.startswith("err dec "):
+        return impl.split(" ", 3)[3] if impl.count(" ") >= 3 else ""
+    if impl.startswith("err"):
+        return "enc"
+    return "differs"
+
+
+LIST_MISMATCH = "List array length mismatch"       # the decoder counted fewer "- " items than the header announces
+
+
 @vlib.known_matcher("D51")
 def _match_d51(stream, line, impl, model):
-    """TOON: an array nested directly in an array, itself holding a non-primitive, is written without its list marker"""
-    if not line.startswith("toon rt"):
+    """TOON: an array nested directly in an array, itself holding a non-primitive, is written without its list marker; the decoder then
+    misses a list item (and nothing else: a wrong inline/tabular row in such a value is not this finding)"""
+    if not line.startswith("toon rt") or not impl.startswith("err dec"):
         return False
     v = wire.parse_all(line.split(" | ")[1])[0]
+    if toon_symptom(impl) != LIST_MISMATCH and not any_node(v, table_item_with_colon_name):
+        return False
     return any_node(v, lambda n: isinstance(n, list) and any(isinstance(x, list) and any(not is_prim(y) for y in x) for x in n))
+
+
+def table_item_with_colon_name(n):
+    """an array of objects directly in an array, with a member name holding a colon: its '- [N]{"a:b",…}:' line is cut at that colon, and the
+    item is then lost with whatever message the remainder provokes"""
+    return isinstance(n, list) and any(isinstance(x, list) and any(isinstance(y, Obj) and any(b":" in k for k, _ in y.members) for y in x) for x in n)
+
+
+def is_mixed_with_array(n):
+    """an array that holds an array and something that is not an array: written item by item by encode_array_content's last branch"""
+    return isinstance(n, list) and any(isinstance(x, list) for x in n) and any(not isinstance(x, list) for x in n)
+
+
+@vlib.known_matcher("D82")
+def _match_d82(stream, line, impl, model):
+    """TOON: a mixed array (an array next to a non-array) that is the first member of a list-item object goes through
+    encode_array_content's mixed branch, which writes its array elements with encode_array(item, no key): no '- ' marker"""
+    if not line.startswith("toon rt") or toon_symptom(impl) != LIST_MISMATCH:
+        return False
+    v = wire.parse_all(line.split(" | ")[1])[0]
+    return any_node(v, lambda n: isinstance(n, list) and any(isinstance(x, Obj) and x.members and is_mixed_with_array(x.members[0][1]) for x in n))
 
 
 @vlib.known_matcher("D52")
@@ -174,11 +210,16 @@ def streams(ctx, rng, scale):
         v = tables.gen_toon_value(rng, 3)
         lt.append("toon rt %d %s | %s" % (rng.choice([2, 2, 4, 1, 3]), rng.choice("ctp"), wire.render(v)))
     ctx.correspond("toon-values", HARNESS, lt, toon_oracle, nontrivial, want_model=False)
+    # every kind of array (of arrays, tabular, inline, list form; strings holding the delimiter) in every position the encoder
+    # distinguishes (member, first / later field of a list item, element of a mixed array, root; nested twice) x delimiter x indent
+    ln = ["toon rt %d %s | %s" % (ind, dl, wire.render(v)) for _, ind, dl, v in tables.toon_shapes()]
+    ctx.correspond("toon-nesting", HARNESS, ln, toon_oracle, nontrivial, want_model=False)
 
 
 def run(ctx):
     ctx.prove(MODULES, leancheck=(ctx.tier == "thorough"))
-    ctx.cov["rule"] = "generated tables x csv options, JSON values x TOON options, encoded and decoded by the real library"
+    ctx.cov["rule"] = ("generated tables x csv options, JSON values x TOON options, encoded and decoded by the real library; TOON additionally: 15 array/string "
+                       "payloads x 9 positions (and 64 position pairs) x comma/tab/pipe x indent 1-4")
     rng = vlib.rng_for(ctx.seed, "c18")
     streams(ctx, rng, 1 if ctx.tier == "quick" else 8)
 
